@@ -13,6 +13,18 @@ A_STD1 = 'A-STD1: AsRef<..>::as_ref of the argument types is a pure view'
 A_MEM = 'A-MEM: side conditions `rows * columns <= usize::MAX` / `length + C + 32 <= usize::MAX` (addressable memory) appear as preconditions'
 
 PROPS = {
+    'C18': {
+        'verus': ['py', 'scores', 'dense'],
+        'kani': [],
+        'native': 'pyreplay',
+        'assumptions': [A_E1, A_T1,
+                        'A-PY0: PyO3 shells: PyRef<Self> ~ &Self, PyIndexError::new_err builds an IndexError, to_object converts the row it is given',
+                        'A-PY1: CPython buffer protocol: element [i][j] of a 2-d view lives at buf + i*strides[0] + j*strides[1]',
+                        'A-PY2: the binding data enums forward rows/columns/stride/get to dense::DenseMatrix (C19) ; get(i) with i >= rows is a Rust panic (precondition)',
+                        'A-MEM: row counts and byte strides fit isize',
+                        'NOT covered: the actual memoryview object, tolist(), lifetime of an exported pointer, staleness of the cached StripedSequence shape after configure() (D7d), FFI'],
+        'explanation': 'pure integer logic of the bindings on verbatim bodies: index normalisation of the five __getitem__ (in range either sign -> the right element, otherwise IndexError, never an out-of-range call), __len__, and the shape/stride computations of the three buffer-exporting constructors against the buffer-protocol addressing rule',
+    },
     'C03': {
         'verus': ['scan', 'pwm_score', 'maxthr'],
         'kani': [],
